@@ -21,9 +21,21 @@ MC = [
 ]
 
 
+HA_INV = "TypeOK DistinctMergeReadsAllFlushes DistinctAggReadsAllMerges MergeReadsAllFlushes ScanReadsAllMerges ParkedDisjoint"
+MC_THOROUGH = [
+    ("HashJoinOp", "SPECIFICATION Spec\nCONSTANTS P = 4\n  NeedsDrain = TRUE\n  BuildRows = {0,1}\n"
+     "INVARIANTS NoLostWake NoParkedOnSetFlag DirectoryExclusive ProbeAfterAllInserted DrainAfterAllProbed CountsConsistent OutputIsJoin\n"
+     "PROPERTY Termination\nCHECK_DEADLOCK FALSE\n", "hash join protocol, P=4, draining join (1.8 M states)"),
+    ("HashAggOp", f"SPECIFICATION Spec\nCONSTANTS P = 6\n  Distinct = TRUE\nINVARIANTS {HA_INV}\nPROPERTY Termination\nCHECK_DEADLOCK FALSE\n",
+     "hash aggregate protocol, P=6, with DISTINCT aggregates"),
+    ("SortMergeOp", "SPECIFICATION Spec\nCONSTANTS P = 4\n  MaxBlocks = 2\nINVARIANTS TypeOK ParkedDisjoint RunsDisjoint AtMostOneDrainer "
+     "FinalRunIsEverything\nPROPERTY Termination\nCHECK_DEADLOCK FALSE\n", "sort merge queue protocol, P=4, 0-2 blocks per partition (0.9 M states)"),
+]
+
+
 def model_check(rep, tier):
-    for i, (mod, cfg, label) in enumerate(MC):
-        r = vlib.tlc(mod, cfg, f"C04-mc{i}", workers=6, timeout=900, args=["-coverage", "1"])
+    for i, (mod, cfg, label) in enumerate(MC + (MC_THOROUGH if tier == "thorough" else [])):
+        r = vlib.tlc(mod, cfg, f"C04-mc{i}", workers=6, timeout=2400, args=["-coverage", "1"], heap="8g")
         if r.error:
             rep.tool_error(f"MC {label}: {r.error}")
             continue
